@@ -1208,8 +1208,130 @@ def check_method_property(c, r, methods):
 # run
 # ---------------------------------------------------------------------------
 
+def gen_trace_cases(ctx, methods):
+    """Shipped methods through their real drivers, every stepper call recorded:
+    (a) constant-step runs of >= 3 steps on NONLINEAR problems (state-dependent Jacobian; the same `data`
+        dict and the cached F(x) are carried from step to step),
+    (b) adaptive runs started with a far too large step and a tight tolerance, so that attempts are rejected
+        before the first accepted step (the state and its cached F(x) must survive a rejected attempt)."""
+    rng = ctx.rng
+    cases = []
+    reps = 3 if ctx.tier == 'thorough' else 1
+
+    def state(n):
+        return [rng.choice([1, -1]) * dy(rng, 1, 2, 8) for _ in range(n)]
+
+    for name, m in methods.items():
+        for rep in range(reps):
+            n = rng.randint(2, 3)
+            L, g = random_system(rng, n, False)
+            Mkind = rng.choice(['dense', 'sparse', 'none'])
+            nl = rng.choice([0.5, 1.0]) if (m['kind'] == 'ros' or rng.random() < 0.6) else 0.0
+            tau = rng.choice([0.25, 0.125, 0.0625])
+            t0 = dy(rng, -1, 1, 8)
+            cases.append(dict(kind='trace', what='constant', name=name, Mkind=Mkind, M=None if Mkind == 'none' else spd_matrix(rng, n),
+                              L=L, g=g, Lkind=rng.choice(['dense', 'sparse']), n=n, nl=nl, x=state(n), tau=tau, t0=t0,
+                              t_end=t0 + rng.randint(3, 6) * tau, tol=None, adaptive_api=m['adaptive']))
+            if not m['adaptive']:
+                continue
+            for variant in ('random', 'oscillator'):
+                if variant == 'random':
+                    n = rng.randint(1, 3)
+                    L, g = random_system(rng, n, False)
+                    x = state(n)
+                    nl = rng.choice([0.0, 0.0, 0.25])
+                else:
+                    n = 2
+                    L, g, x, nl = [[0.0, 4.0], [-4.0, -0.5]], [1.0, 0.0], [1.0, 1.0], 0.0
+                Mkind = rng.choice(['dense', 'sparse', 'none'])
+                t0 = rng.choice([0.0, 0.5, -1.0])
+                cases.append(dict(kind='trace', what='adaptive', name=name, Mkind=Mkind,
+                                  M=None if Mkind == 'none' else spd_matrix(rng, n), L=L, g=g,
+                                  Lkind=rng.choice(['dense', 'sparse']), n=n, nl=nl, x=x, tau=rng.choice([1.0, 2.0]), t0=t0,
+                                  t_end=t0 + 0.25, tol=rng.choice([1e-4, 1e-5]), step_factor=rng.choice([None, 0.8]),
+                                  adaptive_api=True, max_attempts=400))
+    return cases
+
+
+def check_trace_property(c, r, methods, stats):
+    """Every recorded stepper call of a driver run against the single-step oracles, with the arguments the
+    driver really passed: the table, the current state, the cached F(x)."""
+    m = methods[c['name']]
+    if r['status'] != 'Ok':
+        if r['status'] == 'Other:NoConvergenceError' and c['nl'] != 0.0:
+            return None
+        return ('raises-' + r['status'], 'solvers.%s raised: %s' % (c['name'], r.get('msg')))
+    if not all_finite(r):
+        return ('non-finite', 'solvers.%s produced non-finite values' % c['name'])
+    atts = r['attempts']
+    n = c['n']
+    nL = fnorm(fmat(c['L'], n))
+    ng = norm2(c['g'])
+    exp_rows = table_rows(m) if m['kind'] == 'dirk' else None
+    adaptive = c['what'] == 'adaptive'
+    state = [float(v) for v in c['x']]
+    accepted = [state]
+    for k, a in enumerate(atts):
+        stats['attempts'] += 1
+        where = 'attempt %d of %d (tau=%g)' % (k, len(atts), a['tau'])
+        # the table handed to the step function
+        if m['kind'] == 'dirk':
+            want = exp_rows if adaptive else (exp_rows[:-1] if m['adaptive'] else exp_rows)
+            if a['kind'] != 'dirk' or a['A'] != want:
+                return ('table-arg', '%s: the driver called the step function with a table other than the method\'s' % where)
+        else:
+            if a['kind'] != 'ros' or a['A'] != [[float(v) for v in row] for row in m['A']] or \
+                    a['G'] != [[float(v) for v in row] for row in m['Gamma']] or a['b'] != [float(v) for v in m['b']] or \
+                    a['bh'] != ([float(v) for v in m['b_hat']] if adaptive else None):
+                return ('table-arg', '%s: the driver called the step function with a table other than the method\'s' % where)
+        # the state handed to the step function
+        if a['x'] != state:
+            return ('state-chain', '%s: the step starts from %s, but the current state is %s' % (where, a['x'], state))
+        # the cached right-hand side must be F(current state)
+        if a['Fx_in'] is not None:
+            xs = frl(a['x'])
+            nlin = float(c['nl']) * 3 * max(1.0, norm2(xs)) ** 2
+            dev = norm2(fadd(frl(a['Fx_in']), fscale(Fr(-1), exact_F(c, xs))))
+            tolF = 64 * n * float(EPS) * ((nL + nlin) * norm2(xs) + ng) + 1e-300
+            stats['fx_checked'] += 1
+            if dev > tolF:
+                return ('fx-contract', '%s: the cached right-hand side Fx passed to the step is not F(x) of the current state '
+                        '(|Fx - F(x)| = %.3e > %.3e)%s' % (where, dev, tolF,
+                                                         '; the previous attempt was rejected' if k and atts[k - 1].get('x') == a['x'] else ''))
+        case = dict(c, x=a['x'], tau=a['tau'], A=a['A'], kind=a['kind'])
+        if a['kind'] == 'ros':
+            case.update(G=a['G'], b=a['b'], bh=a['bh'])
+        bad = (check_dirk_property if a['kind'] == 'dirk' else check_ros_property)(case, a)
+        if bad:
+            return (bad[0], '%s, state %s: %s' % (where, a['x'], bad[1]))
+        if a['status'] != 'Ok':
+            stats['newton_failures'] += 1
+            continue
+        # did the driver take the step?
+        nxt = atts[k + 1]['x'] if k + 1 < len(atts) else (r['sols'][-1] if not r.get('too_many') else None)
+        if nxt is None:
+            break
+        if nxt == a['x_new'] and (nxt != a['x'] or not adaptive):
+            state = a['x_new']
+            accepted.append(state)
+        elif nxt == a['x'] and adaptive:
+            stats['rejected'] += 1
+        elif k + 1 < len(atts):
+            return ('state-chain', '%s: the next step starts from %s, neither the old state nor x_new' % (where, nxt))
+    if r.get('too_many'):
+        stats['capped'] += 1
+        return None
+    if r['sols'] != accepted and not (atts and atts[-1]['status'] != 'Ok'):
+        return ('solutions', 'the returned states are not x0 followed by the accepted x_new of every step')
+    if len(r['times']) != len(r['sols']):
+        return ('one-state-per-time', '%d states for %d times' % (len(r['sols']), len(r['times'])))
+    if not adaptive and len(atts) < 3:
+        return ('too-few-steps', 'constant-step run made %d steps' % len(atts))
+    return None
+
+
 def strip(c):
-    return {k: v for k, v in c.items() if k not in ('mev', 'slack', 'exact', 'family', 'method', 'stiff', 'what', 'nst')}
+    return {k: v for k, v in c.items() if k not in ('mev', 'slack', 'exact', 'family', 'method', 'stiff', 'nst')}
 
 
 def run_tasks(ctx, tasks, batch=150):
@@ -1326,7 +1448,8 @@ def run(ctx):
     gcases = gen_newton_cases(ctx)
     skip = set(flagged)
     mcases = gen_method_cases(ctx, methods, skip)
-    allc = ccases + acases + ncases + gcases + mcases
+    tcases = gen_trace_cases(ctx, methods)
+    allc = ccases + acases + ncases + gcases + mcases + tcases
     lap('driver cases generated')
     allr = run_tasks(ctx, allc)
     lap('driver cases run on impl')
@@ -1335,7 +1458,8 @@ def run(ctx):
     ares = allr[o:o + len(acases)]; o += len(acases)
     nres = allr[o:o + len(ncases)]; o += len(ncases)
     gres = allr[o:o + len(gcases)]; o += len(gcases)
-    mres = allr[o:]
+    mres = allr[o:o + len(mcases)]; o += len(mcases)
+    tres = allr[o:]
 
     def prop(kindname, cases, results, checker, sigf):
         nonlocal nprop
@@ -1350,6 +1474,17 @@ def run(ctx):
     prop('adaptive-driver', acases, ares, check_adaptive_property, lambda c, b: b[0])
     prop('newton', gcases, gres, check_newton_property, lambda c, b: b[0])
     prop('method', mcases, mres, lambda c, r: check_method_property(c, r, methods), lambda c, b: '%s:%s' % (b[0], c['name']))
+    tstats = {'attempts': 0, 'rejected': 0, 'fx_checked': 0, 'newton_failures': 0, 'capped': 0}
+    prop('trace', tcases, tres, lambda c, r: check_trace_property(c, r, methods, tstats),
+         lambda c, b: '%s:%s:%s' % (c['what'], b[0], c['name']))
+    tstats['runs'] = len(tcases)
+    tstats['explicit_first_stage_adaptive_runs_with_rejection'] = sum(
+        1 for c, r in zip(tcases, tres) if c['what'] == 'adaptive' and r['status'] == 'Ok' and methods[c['name']]['kind'] == 'dirk'
+        and methods[c['name']]['A'][0][0] == 0 and any(
+            k and r['attempts'][k]['x'] == r['attempts'][k - 1]['x'] and r['attempts'][k]['Fx_in'] is not None
+            for k in range(len(r['attempts']))))
+    ctx.cov['driver_traces'] = tstats
+    lap('driver traces checked')
     for k, (c, r) in enumerate(zip(ncases, nres)):
         ctx.count(('newton-exact', k))
         if r['status'] != 'Ok':
@@ -1462,7 +1597,7 @@ def replay(ctx, data):
         return ctx.finish()
     c = rp['case']
     methods = None
-    if c['kind'] == 'method':
+    if c['kind'] in ('method', 'trace'):
         methods = TT.translate(os.path.join(REPO, 'pyiga', 'solvers.py'))
     r = ctx.impl.run(DRIVER, {'tasks': [c]})['results'][0]
     c.setdefault('what', 'const_rhs' if c.get('tol') is None else 'adaptive')
@@ -1475,7 +1610,9 @@ def replay(ctx, data):
                     for e in c['events']]
     checker = {'dirk': check_dirk_property, 'ros': check_ros_property, 'const': check_const_property,
                'adaptive': check_adaptive_property, 'newton': check_newton_property,
-               'method': lambda cc, rr: check_method_property(cc, rr, methods)}.get(c['kind'])
+               'method': lambda cc, rr: check_method_property(cc, rr, methods),
+               'trace': lambda cc, rr: check_trace_property(cc, rr, methods, {'attempts': 0, 'rejected': 0, 'fx_checked': 0,
+                                                                             'newton_failures': 0, 'capped': 0})}.get(c['kind'])
     bad = checker(c, r) if checker else None
     ctx.count(('replay', sig))
     if bad:
